@@ -169,6 +169,10 @@ struct Worker {
     e128: Emu,
     /// 128K with the contended bank 1 paged at 0xC000
     e128b1: Emu,
+    /// machines whose host I/O extender claims every port: the ULA delays a port cycle by its address,
+    /// whoever answers it
+    e48x: Emu,
+    e128x: Emu,
 }
 
 fn mk_worker() -> Worker {
@@ -177,10 +181,16 @@ fn mk_worker() -> Worker {
     let mut o128 = Opts::k128();
     o128.sound = false;
     let e128b1 = fresh_128(1);
+    let mut e48x = rig::emu_stepping(&o48);
+    e48x.set_io_extender(rig::VExt::new(rig::Claim::Mask(0, 0), 0xFF).quiet());
+    let mut e128x = rig::emu_stepping(&o128);
+    e128x.set_io_extender(rig::VExt::new(rig::Claim::Mask(0, 0), 0xFF).quiet());
     Worker {
         e48: rig::emu_stepping(&o48),
         e128: rig::emu_stepping(&o128),
         e128b1,
+        e48x,
+        e128x,
     }
 }
 
@@ -200,6 +210,17 @@ fn fresh_128(top_bank: u8) -> Emu {
 thread_local! {
     /// set while a probe runs on a machine whose paging is locked: nothing can change it any more
     static PAGING_LOCKED: std::cell::Cell<bool> = std::cell::Cell::new(false);
+    /// set while a sweep runs on a machine whose I/O extender claims every port
+    static EXT_MACHINE: std::cell::Cell<bool> = std::cell::Cell::new(false);
+}
+
+/// encodings that run port cycles
+fn does_io(kind: u8, op: u8) -> bool {
+    match kind {
+        0 => op == 0xD3 || op == 0xDB,
+        2 => (0x40..0x80).contains(&op) && op & 7 < 2 || matches!(op, 0xA2 | 0xA3 | 0xAA | 0xAB | 0xB2 | 0xB3 | 0xBA | 0xBB),
+        _ => false,
+    }
 }
 
 fn restore_paging(e: &mut Emu, m128: bool, top_bank: u8) {
@@ -250,13 +271,14 @@ fn sweep(ctx: &Ctx, e: &mut Emu, m128: bool, top_bank: u8, kind: u8, op: u8, p: 
         if it != rt && !reported {
             reported = true;
             let mach = if m128 { "128k" } else { "48k" };
+            let mach = if EXT_MACHINE.with(|x| x.get()) { format!("{}+extender-claims-all-ports", mach) } else { mach.to_string() };
             ctx.violation(
                 &format!("C04:{}:{}", mach, kinds_key(&kinds)),
                 &format!(
                     "{} machine, encoding {} {:02x} (bytes {}), start T={} placement bits {:06b} (bases {:02x}/{:02x}, bank {} at C000), F={:02x} counter-variant {} odd-port {}: takes {} T, contention model says {} T (contended cycles: {})",
                     mach, kind_name(kind), op, crate::vcore::hex(&s.code[..s.len]), t, p.bits, p.cont_base, p.unc_base, top_bank, v.f, v.counter, v.odd_port, it, rt, kinds_key(&kinds)
                 ),
-                json!({"kind":"step","m128":m128,"bank":top_bank,"enc_kind":kind,"op":op,"t":t,"pbits":p.bits,"cont_base":p.cont_base,"unc_base":p.unc_base,"f":v.f,"counter":v.counter,"odd":v.odd_port,"halted":v.halted}),
+                json!({"kind":"step","m128":m128,"bank":top_bank,"enc_kind":kind,"op":op,"t":t,"pbits":p.bits,"cont_base":p.cont_base,"unc_base":p.unc_base,"f":v.f,"counter":v.counter,"odd":v.odd_port,"halted":v.halted,"ext":EXT_MACHINE.with(|x| x.get())}),
             );
         }
     }
@@ -440,7 +462,14 @@ pub fn run(tier: Tier, seed: u64, replay: Option<String>) -> i32 {
         let c = &v["case"];
         let m128 = c["m128"].as_bool().unwrap_or(false);
         let mut w = mk_worker();
-        let e = if m128 { &mut w.e128 } else { &mut w.e48 };
+        let ext = c["ext"].as_bool().unwrap_or(false);
+        EXT_MACHINE.with(|x| x.set(ext));
+        let e = match (m128, ext) {
+            (false, false) => &mut w.e48,
+            (true, false) => &mut w.e128,
+            (false, true) => &mut w.e48x,
+            (true, true) => &mut w.e128x,
+        };
         let bank = c["bank"].as_u64().unwrap_or(0) as u8;
         if m128 {
             rig::cpu_out(e, 0x8000, 0x7FFD, bank);
@@ -531,6 +560,12 @@ pub fn run(tier: Tier, seed: u64, replay: Option<String>) -> i32 {
                 let p = Placement { bits, cont_base: 0x60, unc_base: 0x90 };
                 evals += sweep(&ctx, &mut w.e48, false, 0, kind, op, &p, v, &ts48, &mut outcomes);
                 evals += sweep(&ctx, &mut w.e128, true, 0, kind, op, &p, v, &ts128, &mut outcomes);
+                if does_io(kind, op) {
+                    EXT_MACHINE.with(|x| x.set(true));
+                    evals += sweep(&ctx, &mut w.e48x, false, 0, kind, op, &p, v, &ts48, &mut outcomes);
+                    evals += sweep(&ctx, &mut w.e128x, true, 0, kind, op, &p, v, &ts128, &mut outcomes);
+                    EXT_MACHINE.with(|x| x.set(false));
+                }
             }
         }
         ctx.add_eval(evals);
@@ -596,7 +631,7 @@ pub fn run(tier: Tier, seed: u64, replay: Option<String>) -> i32 {
     ctx.note("start_t_states_128k", json!(ts128.len()));
     ctx.note("t_coverage", json!(if quick { "complete windows: frame start, first picture line +-, line 96, lines 190-192 edge, frame end" } else { "every T-state of the frame" }));
     ctx.finish(
-        "for every encoding x every timing variant (flags 00/FF x counter variants x port parity, HALT also with the CPU already halted; variants with identical reference cycle shape merged) x every contended/uncontended assignment of the address roles the encoding uses (code, nn operand, HL/IX/IY, BC/DE/A as pointer and port high byte, SP, I) x {48K,128K} x every start T of the T set: one single step on the real Emulator (frame clock placed through the hook) and on RefZ80+RefULA; elapsed T must be equal; boundary layer: each address role the encoding uses placed at -3..+2 around every 16K window boundary (4000, 8000, C000 and the FFFF/0000 wrap with contended bank 1 at C000; code straddling 8000/C000) so that an access made one or two bytes off its proper address changes window, over all contention phases at the start and the end of the contended part of a picture line; plus 10 cycle-kind probes with the address at 0xC000 under all eight 128K banks, each also on a machine that locked paging on that bank and then received an (ignored) write for a bank of the other contention class. distinct = distinct (elapsed, phase) outcomes per encoding",
+        "for every encoding x every timing variant (flags 00/FF x counter variants x port parity, HALT also with the CPU already halted; variants with identical reference cycle shape merged) x every contended/uncontended assignment of the address roles the encoding uses (code, nn operand, HL/IX/IY, BC/DE/A as pointer and port high byte, SP, I) x {48K,128K} (encodings that run port cycles also on both machines with a host I/O extender claiming every port) x every start T of the T set: one single step on the real Emulator (frame clock placed through the hook) and on RefZ80+RefULA; elapsed T must be equal; boundary layer: each address role the encoding uses placed at -3..+2 around every 16K window boundary (4000, 8000, C000 and the FFFF/0000 wrap with contended bank 1 at C000; code straddling 8000/C000) so that an access made one or two bytes off its proper address changes window, over all contention phases at the start and the end of the contended part of a picture line; plus 10 cycle-kind probes with the address at 0xC000 under all eight 128K banks, each also on a machine that locked paging on that bank and then received an (ignored) write for a bank of the other contention class. distinct = distinct (elapsed, phase) outcomes per encoding",
         true,
         &["placing the frame clock through verif_set_frame_clocks assumes contention depends on the clock value only (C05 runs whole frames without placing the clock as the control)", "RefULA is the literal formula of the property text"],
     )
